@@ -190,6 +190,8 @@ def _has_small_const(n) -> bool:
         return cv is not None and any(_small(c) for c in flat(cv))
     if n["op"] == "full":
         return _small(n["p"].get("value"))
+    if n["op"] in ("add", "sub", "mul", "truediv", "pow", "arctan2"):
+        return any(_small_lit(a) for a in n.get("args", []))
     return False
 
 
@@ -197,7 +199,12 @@ def _known_logical_small_literal(case, failure) -> bool:
     """a truth-value context (&&, ||, !, where condition, all/any) whose
     operand is a float literal below 1 or an inlined where/pad/max/min/full
     carrying one."""
-    ops = _derived(case, _has_small_const)
+    from pvf.ptbuild import node_refs
+    ops = set()
+    for i, n in enumerate(case["nodes"]):
+        # everything computed from such a constant may be inlined with it
+        if _has_small_const(n) or any(r in ops for r in node_refs(n)):
+            ops.add(i)
 
     def truth(n, pos):
         return n["op"] in TRUTH_CONTEXT or (n["op"] == "where" and pos == 0)
